@@ -56,7 +56,7 @@ func drawCalls(t *tape.Tape, family string) []jsCall {
 		c := jsCall{}
 		c.ctx = t.Weighted("js.ctx", 3, 2) == 1
 		kinds := []string{"echo", "concat", "sum", "arr", "obj", "probe", "probe", "probe", "node", "nan", "inf", "null", "undef", "throw", "syntax", "oddargs",
-			"throwstr", "posinf", "nested", "objnull", "arrnull", "booleq", "echo", "mathfloor", "neginf2"}
+			"throwstr", "posinf", "nested", "objnull", "arrnull", "booleq", "echo", "mathfloor", "neginf2", "getter"}
 		c.kind = kinds[t.Intn("js.kind", len(kinds))]
 		if c.kind == "node" {
 			c.ctx = true
@@ -158,6 +158,9 @@ func (c jsCall) script() string {
 		return c.names[0] + " === " + c.names[0]
 	case "mathfloor":
 		return "Math.floor(7.5)"
+	case "getter":
+		// an exception thrown while the result is being converted (a getter) is still a thrown exception
+		return "({get x() { throw new Error('getter boom') }})"
 	case "neginf2":
 		return "Math.log(0)"
 	case "syntax":
